@@ -12,8 +12,9 @@ def run(res):
     add_direct(res, "bounded:collator-pipeline", "bounded", r is None, backend="bounded", model=r,
                note="real compose collators with recording members (all mode orders <= 3) and the padding collator on tensors")
     res.bounded.append({"name": "collator-pipeline", "bound": "all member-mode orders of length <= 3 over {None, before, after} x return_ctx x "
-                        "batch sizes {1,3}; padding: 6 length profiles x ctx x extra field",
-                        "evaluations": n, "distinct": n, "rule": "distinct (mode order, return_ctx, batch size) / (length profile, ctx, extra) tuples",
+                        "batch sizes {1,3}, orders of length <= 2 also with members carrying a standalone configuration of their own (2 variants); "
+                        "padding: 6 length profiles x ctx x extra field x ctx route (split off by the pipeline / through the collator)",
+                        "evaluations": n, "distinct": n, "rule": "distinct (mode order, return_ctx, batch size, member configuration) / (length profile, ctx, extra, ctx route) tuples",
                         "samples": [{"modes": ["after", "before"], "return_ctx": True, "batch_size": 3}, {"lengths": [1, 4, 2], "return_ctx": True}]})
     res.notes.append("the padding collator (tensor code) is covered by the bounded stand-in only; default_collate's behaviour on dicts "
                      "(key set preserved) is an assumed library contract")
